@@ -47,6 +47,9 @@ CHECKS = {
     "C15": (A, "4.15", "independent downstream decoder over every data answer (size bound, fragment numbering, last flag vs offered frames)",
             "held on every executed history for F in {2..65535}; numbering/last-flag judged for packets of <=16 fragments, cache replays excluded",
             "trusts simnet/proto.py decoders (cross-validated by interoperating with the real server) and Python zlib"),
+    "C16": (A, "4.16", "differential monitor (same time-scripted session with and without re-delivered queries) + per-select() invariant on the users[] snapshot + answer-cache same-payload rule",
+            "held on every executed pair: server tun writes, packets delivered to the client and final transfer counters identical with and without re-deliveries; transfer counters unchanged across every iteration that handled only a re-delivered copy; identical repeats of the three most recently answered queries got the original payload",
+            "re-deliveries are drawn from inside the documented windows; a case-changed copy of a query that is still held is a new query to the server by design and is judged by the invariant oracle only (DESIGN 9)"),
     "C17": (B, "4.17", "exhaustive small-alphabet enumeration against a label-splitting reference matcher, ASan on exact-size strings",
             "exhaustive for validation strings of length 0..7 and query names of length 0..8 over {a,A,b,-,.,*,0} against 16 domains; seeded random long names/domains; boundary lengths",
             "reference written from the property text; wildcard-matched label must be non-empty"),
